@@ -103,7 +103,9 @@ func calcDewPoint(temperature, humidity float64) float64 {
 	ea = calcVaporPressure(temperature) * humidity / 100 // actual vapour pressure
 	if ea > 0 {
 		Func := math.Log(ea / 0.6108)
-		return 237.3 * Func / (17.27 - Func)
+		// the inverse uses a different saturation curve than calcVaporPressure: near saturation it can
+		// land (slightly) above the air temperature, which no dew point can exceed
+		return math.Min(237.3*Func/(17.27-Func), temperature)
 	}
 	return math.NaN()
 }
